@@ -44,6 +44,8 @@ def history(rng, timeout, length, placements=True):
             choices += ["realbind", "listen-again"]
         if s.open:
             choices += ["call", "close", "close"]
+            if s.held is None and not s.gated:
+                choices += ["badcall"]
         if s.serving and not s.shutdown and s.held is None:
             choices += ["shutdown"]
         if s.serving and s.shutdown and s.held is None:
@@ -82,6 +84,11 @@ def history(rng, timeout, length, placements=True):
             ops += ["listen 1 0", "running", "listener-nil"]
         elif c == "call":
             ops += ["call %d" % rng.choice(sorted(s.open))]
+        elif c == "badcall":
+            # handler error: the service ends the connection itself and must account for it
+            i = rng.choice(sorted(s.open))
+            s.open.discard(i)
+            ops += ["badcall %d" % i, "active"]
         elif c == "close":
             i = rng.choice(sorted(s.open))
             s.open.discard(i)
@@ -143,6 +150,11 @@ def read_statement(ops, res):
                 return "op %d: connection %d arrived after Shutdown returned / after the timeout exit and was served" % (i, cid)
             if cid in open_ and cid not in late and r != "ok":
                 return "op %d: accepted connection %d was not served (%s)" % (i, cid, r)
+        elif f[0] == "badcall":
+            cid = int(f[1])
+            if cid in open_ and cid not in late and r != "ended":
+                return "op %d: a frame that does not decode must end connection %d (%s)" % (i, cid, r)
+            open_.discard(cid)
         elif f[0] == "close":
             open_.discard(int(f[1]))
         elif f[0] == "shutdown":
